@@ -12,6 +12,7 @@ AUDIT_IMPORT = ("From Coq Require Import List Arith NArith Bool.\nImport ListNot
 EXPLAIN = "explain"
 AXIOM_ALLOW = []
 SHARD = 1500
+SEARCH_MAX = 2500
 THEOREMS = [
     ("c05_reset_is_new", "forall (s : dsu) (n : nat), reset s n = Ok (new n)"),
 ]
